@@ -22,6 +22,7 @@ def step (line : String) : String :=
     | "mapper" => mapperCmd args
     | "mapperrace" => mapperraceCmd args
     | "pipe" => pipeCmd args
+    | "hl" => hlCmd args
     | "queue" => queueCmd args
     | "relay" => relayCmd args
     | "frame" => frameCmd args
